@@ -8,7 +8,7 @@ for f in ("patch.diff", "demo.py", "notes.md"):
     shutil.copy(os.path.join(src, f), os.path.join(dst, f))
 ver = open(os.path.join(src, "verify.txt")).read().strip().splitlines()
 assert "demo_on_original_exit=0" in ver and "demo_on_mutant_exit=1" in ver and any(l.startswith("apply=") and "FAILED" not in l for l in ver) and any("passed" in l and "failed" not in l for l in ver), ver
-json.dump(dict(id=sid, property=pid, source="independent sub-agent (third wave: told which mechanisms earlier seeds used, asked for different ones) given only the property text and a scratch worktree",
+json.dump(dict(id=sid, property=pid, source="independent sub-agent (later wave: told which mechanisms earlier seeds used, asked for different ones) given only the property text and a scratch worktree",
                needs_to_manifest=need, confirmed=dict(what="tools/verify_mutant.sh in a scratch worktree of /repo HEAD: patch applies, demo exits 0 on the original and 1 with the patch, unedited suite passes with the patch (flaky test_he_noisy_sphere_opt deselected)", output=ver)),
           open(os.path.join(dst, "meta.json"), "w"), indent=1)
 print("imported", sid)
